@@ -67,6 +67,8 @@ def obligations(run, visitors, oid_prefix="trace"):
             run.ob(oid, "fail", note=m.group(1)[:200], **common)
     if "MarkAndSweepContext" in visitors:
         order_obligation(run, open(out).read(), wsdir, root, env, dump_s)
+    if "GlobalSlotRecycler" in visitors:
+        opscan_obligation(run, open(out).read(), wsdir, root, env)
     for v in visitors:
         if v not in seen:
             run.ob("%s:%s" % (oid_prefix, v), "inconclusive", reason="visitor not found in the MIR dump", engine="mir-smt")
@@ -76,10 +78,10 @@ def obligations(run, visitors, oid_prefix="trace"):
 def replay(pid, payload, path):
     wsdir = ws.prepare("tracereplay", [])
     root = os.path.dirname(wsdir)
-    if payload.get("kind") == "order":
+    if payload.get("kind") in ("order", "opscan"):
         shutil.copy(os.path.join(ws.VERIF, "harness", "arity_replay.rs"), os.path.join(wsdir, "crates", "steel-core", "tests", "verif_arity_replay.rs"))
         p = subprocess.run(["cargo", "test", "--offline", "-p", "steel-core", "--no-default-features", "--features", ws.FEATURES,
-                            "--test", "verif_arity_replay", "--target-dir", os.path.join(root, "tn"), "--", "order_replay", "--exact", "--nocapture"],
+                            "--test", "verif_arity_replay", "--target-dir", os.path.join(root, "tn"), "--", ("opscan_replay" if payload.get("kind") == "opscan" else "order_replay"), "--exact", "--nocapture"],
                            cwd=wsdir, env=dict(os.environ), capture_output=True, text=True)
         m = re.search(r"OBSERVED: (.*)", p.stdout + p.stderr)
         print("observed:", m.group(1) if m else "not reproduced")
@@ -141,6 +143,59 @@ def order_obligation(run, mir_text, wsdir, root, env, dump_s):
     path = os.path.join(d, "order_mark_bits.json")
     json.dump({"property": run.pid, "kind": "order", "what": what, "observed": m.group(1), "how": "./check %s --replay <this file>" % run.pid}, open(path, "w"), indent=1)
     key = "order:marking-without-reset"
+    if run.is_known(key):
+        run.known_hit(key, run.known[(run.pid, key)] + " -- " + m.group(1)[:200])
+        run.ob(oid, "known", nonvacuous=True, **common)
+    else:
+        run.violation(key, "%s; natively: %s" % (what, m.group(1)[:300]), path)
+        run.ob(oid, "fail", note=m.group(1)[:200], **common)
+
+
+def opscan_obligation(run, mir_text, wsdir, root, env):
+    """E3f: every opcode through which VmCore::vm reaches the global table with its own payload is on the
+    recycler's scan list (lib/p_opscan.py)"""
+    import p_opscan
+    oid = "opscan:recycler-scans-every-global-opcode"
+    t0 = time.time()
+    try:
+        r = p_opscan.analyse(mir_text, open(os.path.join(wsdir, "crates", "steel-gen", "src", "opcode.rs")).read())
+    except Exception as ex:
+        run.ob(oid, "inconclusive", reason="extraction failed: %s" % str(ex)[-300:], engine="mir-smt")
+        return
+    common = dict(engine="mir-smt/z3", wall_s=round(time.time() - t0, 1), solver_s=round(r["dt"], 3), solver_checks=r["opcodes"])
+    run.samples.append({"engine": "mir-smt", "query": "exists opcode op (of %d): the arm of VmCore::vm for op hands its own payload to a global accessor AND GlobalSlotRecycler::visit_closure does not keep the slot named by op's payload" % r["opcodes"],
+                        "opcodes whose arm reaches the global table with their own payload": r["vm_global"], "opcodes the recycler scans": r["scanned"],
+                        "global accessors (derived: functions calling Env::repl_*_idx / SharedVectorWrapper::set_idx)": r["accessors"][:24]})
+    run.functions.append("steel_vm::vm::VmCore::vm (opcode dispatch arms), values::closed::GlobalSlotRecycler::visit_closure (opcode scan), env::Env accessors (MIR)")
+    if r["res"] == "error":
+        run.ob(oid, "inconclusive", reason="solver error", **common)
+        return
+    if len(r["vm_global"]) < 3 or len(r["scanned"]) < 3:
+        run.ob(oid, "inconclusive", reason="vacuous: %d global-reaching opcodes, %d scanned opcodes recognised" % (len(r["vm_global"]), len(r["scanned"])), **common)
+        return
+    if r["res"] == "unsat":
+        run.ob(oid, "pass", nonvacuous=True, note="%d opcodes reach the global table with their own payload, all of them are scanned by the recycler" % len(r["vm_global"]), **common)
+        return
+    what = "opcode(s) %s reach the global table through %s with their own payload, but the recycler's scan does not keep their slot" % (", ".join(r["missing"]), r["via"])
+    try:
+        shutil.copy(os.path.join(ws.VERIF, "harness", "arity_replay.rs"), os.path.join(wsdir, "crates", "steel-core", "tests", "verif_arity_replay.rs"))
+        p = subprocess.run(["cargo", "test", "--offline", "-p", "steel-core", "--no-default-features", "--features", ws.FEATURES,
+                            "--test", "verif_arity_replay", "--target-dir", os.path.join(root, "tn"), "--", "opscan_replay", "--exact", "--nocapture"],
+                           cwd=wsdir, env=env, capture_output=True, text=True, timeout=2400)
+        m = re.search(r"OBSERVED: (.*)", p.stdout + p.stderr)
+    except Exception as ex:
+        run.ob(oid, "inconclusive", reason="replay failed: %s" % str(ex)[-300:], **common)
+        return
+    # the replay program exercises SET; another missing opcode has no recipe
+    if not m or "SET" not in r["missing"]:
+        tail = " ".join((p.stdout + p.stderr).split("\n")[-6:])[-300:]
+        run.ob(oid, "inconclusive", reason="solver: %s; not reproduced by the replay program (%s)" % (what, tail), **common)
+        return
+    d = os.path.join(ws.VERIF, "replays", run.pid)
+    os.makedirs(d, exist_ok=True)
+    path = os.path.join(d, "opscan.json")
+    json.dump({"property": run.pid, "kind": "opscan", "what": what, "missing": r["missing"], "observed": m.group(1), "how": "./check %s --replay <this file>" % run.pid}, open(path, "w"), indent=1)
+    key = "opscan:%s" % "+".join(r["missing"])
     if run.is_known(key):
         run.known_hit(key, run.known[(run.pid, key)] + " -- " + m.group(1)[:200])
         run.ob(oid, "known", nonvacuous=True, **common)
